@@ -46,10 +46,12 @@ CONSTANTS MaxBufs,     \* number of allocations in a behaviour
           FirstFit,    \* reduction: an allocation takes the lowest free address (TRUE) or any free address (FALSE)
           KeyStrides, Finalizer, CheckBases
 
-VARIABLES bufs, views, cache, last, hist
-vars == <<bufs, views, cache, last, hist>>
+VARIABLES bufs, views, cache, last, hist,
+          guarded    \* ghost: the <<item, array>> pairs that bypassed the cache although the array itself is read-only (its
+                     \* buffer is writeable): the calls a design that looks at the argument's own flag only would have cached
+vars == <<bufs, views, cache, last, hist, guarded>>
 \* identity of a state for the search: everything but the route by which it was reached
-StateView == <<bufs, views, cache, last>>
+StateView == <<bufs, views, cache, last, guarded>>
 
 \* ------------------------------------------------------------------ views on a 4 x 2 buffer (row-major cells 0..7)
 Kinds == {"full", "even", "head", "headT", "odd", "mid", "tail", "rev"}
@@ -91,6 +93,7 @@ Init == /\ bufs = [b \in 1..MaxBufs |-> NoBuf]
         /\ cache = {}
         /\ last = NoCall
         /\ hist = <<>>
+        /\ guarded = {}
 
 Room == Len(hist) < MaxOps
 Log(op) == hist' = Append(hist, op)
@@ -102,18 +105,18 @@ Alloc(a, wr) == /\ Room /\ HasBuf /\ HasView /\ a \in FreeAddrs
                 /\ bufs' = [bufs EXCEPT ![NextBuf] = [st |-> "live", addr |-> a, wr |-> wr, ver |-> 0]]
                 /\ views' = [views EXCEPT ![NextView] = [st |-> "live", buf |-> NextBuf, kind |-> "full", ro |-> ~wr, owner |-> TRUE]]
                 /\ Log([Op("alloc", NextBuf, NextView, "full", wr, 0) EXCEPT !.addr = a])
-                /\ UNCHANGED <<cache, last>>
+                /\ UNCHANGED <<cache, last, guarded>>
 \* a[::2], a[:2].T, ...: views of a frozen array are frozen; a view of a writeable array may be made read-only
 MkView(b, k, ro) == /\ Room /\ HasView /\ b \in LiveBufs /\ ViewsOf(b) # {}
                     /\ (~bufs[b].wr => ro)
                     /\ views' = [views EXCEPT ![NextView] = [st |-> "live", buf |-> b, kind |-> k, ro |-> ro, owner |-> FALSE]]
                     /\ Log(Op("view", b, NextView, k, ro, 0))
-                    /\ UNCHANGED <<bufs, cache, last>>
+                    /\ UNCHANGED <<bufs, cache, last, guarded>>
 \* in-place write through the writeable owner
 Mutate(b) == /\ Room /\ b \in LiveBufs /\ bufs[b].wr /\ bufs[b].ver < MaxVer
              /\ bufs' = [bufs EXCEPT ![b].ver = @ + 1]
              /\ Log(Op("mutate", b, 0, "none", FALSE, 0))
-             /\ UNCHANGED <<views, cache, last>>
+             /\ UNCHANGED <<views, cache, last, guarded>>
 \* del v; the last reference frees the buffer, and the weakref callback pops the entries registered on it
 Drop(v) == /\ Room /\ v \in LiveViews
            /\ LET b == views[v].buf
@@ -122,6 +125,7 @@ Drop(v) == /\ Room /\ v \in LiveViews
                  /\ bufs' = IF dies THEN [bufs EXCEPT ![b].st = "freed"] ELSE bufs
                  /\ cache' = IF dies /\ Finalizer THEN {e \in cache : e.base # b} ELSE cache
                  /\ Log([Op("drop", b, v, "none", dies, 0) EXCEPT !.ncache = Cardinality(cache')])
+           /\ guarded' = {g \in guarded : g[2] # v}
            /\ UNCHANGED last
 \* item.apply(v) through the wrapper
 CallWith(t, v, how, res, cache2) ==
@@ -131,11 +135,14 @@ CallWith(t, v, how, res, cache2) ==
     /\ UNCHANGED <<bufs, views>>
 CallBypass(t, v) == /\ Room /\ v \in LiveViews /\ Bypass(v)
                     /\ CallWith(t, v, "bypass", Image(t, v), cache)
+                    /\ guarded' = IF views[v].ro THEN guarded \cup {<<t, v>>} ELSE guarded
 CallHit(t, v) == /\ Room /\ v \in LiveViews /\ ~Bypass(v)
                  /\ \E e \in cache : e.key = Key(t, v) /\ CallWith(t, v, "hit", e.val, cache)
+                 /\ UNCHANGED guarded
 CallMiss(t, v) == /\ Room /\ v \in LiveViews /\ ~Bypass(v)
                   /\ ~\E e \in cache : e.key = Key(t, v)
                   /\ CallWith(t, v, "miss", Image(t, v), cache \cup {[key |-> Key(t, v), val |-> Image(t, v), base |-> views[v].buf]})
+                  /\ UNCHANGED guarded
 
 Next == \/ \E a \in Addrs, wr \in BOOLEAN : Alloc(a, wr)
         \/ \E b \in 1..MaxBufs, k \in UseKinds \ {"full"}, ro \in BOOLEAN : MkView(b, k, ro)
